@@ -165,7 +165,12 @@ func (p *parser) ParseFile() (prog *ast.File, err error) {
 				prog = p.prog
 				err = errx
 			} else {
-				panic(r)
+				// 输入不合法触发的断言/类型断言/越界等, 也作为解析错误返回, 不让调用者崩溃
+				prog = p.prog
+				err = &parserError{
+					pos: p.fset.Position(p.pos),
+					msg: fmt.Sprint(r),
+				}
 			}
 		}
 	}()
